@@ -401,7 +401,12 @@ impl Chitchat {
         for key in previous_keys {
             node_state.remove_key_value_internal(&key);
         }
-        node_state.set_last_gc_version(last_gc_version);
+        // Neither the GC watermark nor the max version may go backwards: the supplied watermark can
+        // be older than ours, and the supplied state may bring no key newer than what we have.
+        let new_last_gc_version = last_gc_version.max(node_state.last_gc_version());
+        node_state.set_last_gc_version(new_last_gc_version);
+        let new_max_version = max_version.max(node_state.max_version());
+        node_state.set_max_version(new_max_version);
 
         let monotonic_property_after = node_state.monotonic_property();
 
